@@ -83,6 +83,15 @@ def main(inp, outp):
                        np.all(np.isfinite(ga)) and np.abs(ga - want).max() <= 1e-9 * max(nrm, 1) and np.abs(gb - want).max() <= 1e-9 * max(nrm, 1)
                        and np.abs(np.asarray(mb._dv, float) - dv).max() <= 1e-9 * max(nrm, 1),
                        "local/man-duration", f"tag {tag} dv {v['dv']} duration {dur}: accel*duration {ga.tolist()} / {gb.tolist()} expected {want.tolist()}", data)
+            # the three dates of a burn (start, median, stop) are consistent with the date it was described by
+            for pos in ("start", "median", "stop"):
+                dur = timedelta(seconds=240.5)
+                mm = ContinuousMan(DATE, dur, dv=dv, frame=tag, date_pos=pos)
+                st_ = {"start": DATE, "median": DATE - dur / 2, "stop": DATE - dur}[pos]
+                okd = abs((mm.start - st_).total_seconds()) <= 2e-6 and abs((mm.stop - (st_ + dur)).total_seconds()) <= 2e-6 \
+                    and abs((mm.median - (st_ + dur / 2)).total_seconds()) <= 2e-6 and abs(mm.duration.total_seconds() - 240.5) <= 1e-9
+                clause("a continuous burn described by its start, middle or end has start / median / stop where they belong", okd, "local/man-dates",
+                       f"date_pos={pos}: start {mm.start}, median {mm.median}, stop {mm.stop} for a {dur} burn anchored at {DATE}", data)
             clause("a maneuver given in QSW/TNW/inertial axes contributes M^T dv with exactly its magnitude",
                    np.abs(got - want).max() <= 1e-12 * max(nrm, 1) and np.abs(gotc - want * 1e-3).max() <= 1e-15 * max(nrm, 1)
                    and np.abs(gotd - want).max() <= 1e-12 * max(nrm, 1) and abs(np.linalg.norm(got) - nrm) <= 1e-12 * max(nrm, 1),
